@@ -27,6 +27,7 @@ import (
 type File struct {
 	f    *os.File
 	name string
+	ino  uint64 // real inode number while counted as open (see inode.go)
 }
 
 var (
@@ -53,7 +54,11 @@ func wrap(f *os.File, err error) (*File, error) {
 		return nil, err
 	}
 	rt.TrackFile(f)
-	return &File{f: f, name: f.Name()}, nil
+	ff := &File{f: f, name: f.Name()}
+	if rt.Active() {
+		ff.ino = inodes.opened(f)
+	}
+	return ff, nil
 }
 
 func NewFile(fd uintptr, name string) *File {
@@ -90,7 +95,16 @@ func OpenFile(name string, flag int, perm os.FileMode) (*File, error) {
 	if d.Err != nil {
 		return nil, perr("open", name, d.Err)
 	}
-	f, err := wrap(os.OpenFile(name, flag, perm))
+	existed := true
+	if flag&os.O_CREATE != 0 && rt.Active() {
+		_, lerr := os.Lstat(name)
+		existed = lerr == nil
+	}
+	rf, err := os.OpenFile(name, flag, perm)
+	if err == nil && !existed {
+		inodes.created(rf)
+	}
+	f, err := wrap(rf, err)
 	rt.After(d)
 	return f, err
 }
@@ -98,7 +112,7 @@ func OpenFile(name string, flag int, perm os.FileMode) (*File, error) {
 var tempCounter = map[int]int{}
 
 // ResetTemp resets the deterministic temp-name streams (called per run).
-func ResetTemp() { tempCounter = map[int]int{} }
+func ResetTemp() { tempCounter = map[int]int{}; inodes = newInoState() }
 
 func nextTempName(prefix, suffix string) string {
 	id := -1
@@ -141,6 +155,9 @@ func CreateTemp(dir, pattern string) (*File, error) {
 		f, err := os.OpenFile(name, os.O_RDWR|os.O_CREATE|os.O_EXCL, 0600)
 		if os.IsExist(err) && try < 10000 {
 			continue
+		}
+		if err == nil {
+			inodes.created(f)
 		}
 		ff, err := wrap(f, err)
 		rt.After(d)
@@ -190,13 +207,13 @@ func simple(kind, opname, path string, fn func() error) error {
 func Stat(name string) (os.FileInfo, error) {
 	var fi os.FileInfo
 	err := simple("stat", "stat", name, func() (e error) { fi, e = os.Stat(name); return })
-	return fi, err
+	return wrapInfo(fi, err)
 }
 
 func Lstat(name string) (os.FileInfo, error) {
 	var fi os.FileInfo
 	err := simple("lstat", "lstat", name, func() (e error) { fi, e = os.Lstat(name); return })
-	return fi, err
+	return wrapInfo(fi, err)
 }
 
 func Chmod(name string, mode os.FileMode) error {
@@ -208,7 +225,14 @@ func Mkdir(name string, perm os.FileMode) error {
 }
 
 func Remove(name string) error {
-	return simple("unlink", "remove", name, func() error { return os.Remove(name) })
+	return simple("unlink", "remove", name, func() error {
+		after := inodes.unlinking(name)
+		err := os.Remove(name)
+		if err == nil && after != nil {
+			after()
+		}
+		return err
+	})
 }
 
 func Truncate(name string, size int64) error {
@@ -226,7 +250,11 @@ func Rename(oldpath, newpath string) error {
 	if d.Err != nil {
 		return &os.LinkError{Op: "rename", Old: oldpath, New: newpath, Err: d.Err}
 	}
+	after := inodes.unlinking(newpath)
 	err := os.Rename(oldpath, newpath)
+	if err == nil && after != nil {
+		after()
+	}
 	rt.After(d)
 	return err
 }
@@ -329,7 +357,11 @@ func removeAll(path string) error {
 	if d.Err != nil {
 		return perr("unlinkat", path, d.Err)
 	}
+	after := inodes.unlinking(path)
 	err := os.Remove(path)
+	if err == nil && after != nil {
+		after()
+	}
 	rt.After(d)
 	if err == nil || os.IsNotExist(err) {
 		return nil
@@ -429,7 +461,7 @@ func WriteFile(name string, data []byte, perm os.FileMode) error {
 // ---- File methods ----
 
 func (f *File) Name() string { return f.name }
-func (f *File) Fd() uintptr   { return f.f.Fd() }
+func (f *File) Fd() uintptr  { return f.f.Fd() }
 
 func (f *File) Close() error {
 	if f == nil {
@@ -441,6 +473,8 @@ func (f *File) Close() error {
 	}
 	rt.UntrackFile(f.f)
 	err := f.f.Close()
+	inodes.closed(f.ino)
+	f.ino = 0
 	rt.After(d)
 	return err
 }
@@ -543,7 +577,7 @@ func (f *File) Seek(offset int64, whence int) (int64, error) { return f.f.Seek(o
 func (f *File) Stat() (os.FileInfo, error) {
 	var fi os.FileInfo
 	err := simple("fstat", "stat", f.name, func() (e error) { fi, e = f.f.Stat(); return })
-	return fi, err
+	return wrapInfo(fi, err)
 }
 
 func (f *File) Chmod(mode os.FileMode) error {
@@ -551,7 +585,7 @@ func (f *File) Chmod(mode os.FileMode) error {
 }
 
 func (f *File) Chown(uid, gid int) error { return f.f.Chown(uid, gid) }
-func (f *File) Chdir() error              { return f.f.Chdir() }
+func (f *File) Chdir() error             { return f.f.Chdir() }
 
 func (f *File) Sync() error {
 	return simple("fsync", "sync", f.name, func() error { return f.f.Sync() })
